@@ -146,6 +146,14 @@ func walkFunc(im *image, f fn, rep *vmon.Report, ops map[string]struct{}, st *wa
 				map[string]interface{}{"bytes": fmt.Sprintf("%x", src[:ri.Len])})
 			return
 		}
+		// the same instruction with not one byte behind it (the last instruction of a buffer): same answer
+		if gi.Op == 0 {
+			// goom's own answer is a lone prefix (an encoding outside its tables): nothing to compare
+		} else if gx, xerr := goom.Decode(src[:ri.Len:ri.Len], 64); xerr != nil || gx.Len != gi.Len || gx.Op != gi.Op || gx.Opcode != gi.Opcode || gx.PCRel != gi.PCRel || gx.PCRelOff != gi.PCRelOff || gx.String() != gi.String() {
+			rep.Violate("C16/answer-depends-on-bytes-behind-the-instruction", fmt.Sprintf("%s %s+%#x: %s decoded from exactly its %d bytes gives %s (len %d, pcrel %d@%d, err %v), with bytes behind it len %d, pcrel %d@%d", filepath.Base(im.path), f.name, pos-f.off, gi.String(), ri.Len, gx.String(), gx.Len, gx.PCRel, gx.PCRelOff, xerr, gi.Len, gi.PCRel, gi.PCRelOff),
+				map[string]interface{}{"bytes": fmt.Sprintf("%x", src[:ri.Len])})
+			return
+		}
 		st.insts++
 		if gi.PCRel != 0 {
 			st.pcrel++
